@@ -96,10 +96,25 @@ def _resolve_target_set_from_expr(
         raise ValueError("Unexpected expression type")
     visited.add(id(target))
 
+    if scope_chain is None:
+        # An unresolvable `with` environment must not block structural edits.
+        scope_chain = scopes_for_owner(target, strict=False)
+
+    def _inherit(expr: NixExpression, scopes: tuple[Scope, ...] | None) -> None:
+        """Hand the scope chain collected so far to *expr* as its inherited context.
+
+        Without this a `let` (or `with`) separated from the target set by an
+        assert, a lambda head, parentheses or a call is lost for resolution.
+        """
+        if scopes:
+            set_resolution_context(expr, scopes)
+
     def _resolve_nested(
         expr: NixExpression, *, scopes: tuple[Scope, ...] | None = scope_chain
     ) -> AttributeSet:
-        return _resolve_target_set_from_expr(expr, scope_chain=scopes, _visited=visited)
+        _inherit(expr, scopes)
+        # The nested level adds its own let layers / with environment itself.
+        return _resolve_target_set_from_expr(expr, scope_chain=None, _visited=visited)
 
     def _resolve_call_argument(
         call: FunctionCall, *, scopes: tuple[Scope, ...] | None = scope_chain
@@ -118,17 +133,18 @@ def _resolve_target_set_from_expr(
                 owners=(call, argument),
             )
             argument = _strip_parentheses(argument)
+        if isinstance(_strip_parentheses(call.name), FunctionDefinition):
+            # The argument of a directly applied lambda is evaluated outside the
+            # lambda: the parameter scope the call contributes does not apply.
+            scopes = None
         if isinstance(argument, AttributeSet):
+            _inherit(argument, scopes)
             return argument
         try:
             return _resolve_nested(argument, scopes=scopes)
         except ValueError:
             # Keep searching parent branches when this call argument is not a usable target.
             return None
-
-    if scope_chain is None:
-        # An unresolvable `with` environment must not block structural edits.
-        scope_chain = scopes_for_owner(target, strict=False)
 
     match target:
         case Assertion():
@@ -146,6 +162,7 @@ def _resolve_target_set_from_expr(
                 if output_argument is not None:
                     return output_argument
             if isinstance(output, AttributeSet):
+                _inherit(output, scope_chain)
                 return output
             try:
                 return _resolve_nested(output)
@@ -155,14 +172,7 @@ def _resolve_target_set_from_expr(
             # An opaque environment (function argument, import, ...) contributes
             # no scope, but the body is still the edit target and keeps the
             # let layers around the `with`.
-            body_scopes = scopes_for_owner(target, strict=False) or scope_chain
-            if body_scopes:
-                set_resolution_context(target.body, body_scopes)
-            return _resolve_target_set_from_expr(
-                target.body,
-                scope_chain=body_scopes,
-                _visited=visited,
-            )
+            return _resolve_nested(target.body)
         case Identifier():
             resolved, identifier_scopes = _resolve_identifier_target(
                 target,
